@@ -707,3 +707,42 @@ end Agd.Ratelimit
 #print axioms Agd.Tie.TrC09.refuse_any_for_everyone
 #print axioms Agd.Tie.TrC09.counted_with_family_limits
 #print axioms Agd.Tie.TrC09.counter_add
+#print axioms Agd.Tie.TrC09.counter_add_is_ringAdd
+#print axioms Agd.Tie.TrC09.isBackoff_tr
+#print axioms Agd.Tie.TrC09.isBackoff_lookup
+#print axioms Agd.Tie.TrC09.isRateLimited_tr
+#print axioms Agd.Tie.TrC09.isRateLimited_counts_with_model_limits
+#print axioms Agd.Tie.TrC09.hasHit_is_counter_verdict
+#print axioms Agd.Tie.TrC09.hasHit_incBackoff_iff_above
+#print axioms Agd.Tie.TrC09.hasHit_counter_creation
+#print axioms Agd.Tie.TrC09.incBackoff_effects
+#print axioms Agd.Tie.TrC09.subnetKey_family_len
+#print axioms Agd.Tie.TrC09.subnetKey_no_panic_iff
+#print axioms Agd.Tie.TrC09.flatten_replicate_singleton
+#print axioms Agd.Tie.TrC09.wrap64_of_nat
+#print axioms Agd.Tie.TrC09.countResponses_weight
+#print axioms Agd.Tie.TrC09.countResponses_panics_iff
+#print axioms Agd.Tie.TrC09.validateAddr_ok_iff
+#print axioms Agd.Tie.TrC09.isEnabledForProto_tr
+#print axioms Agd.Tie.TrC09.lib_other_proto_passthrough
+#print axioms Agd.Tie.TrC09.lib_port_zero_dropped
+#print axioms Agd.Tie.TrC09.lib_drop_no_response
+#print axioms Agd.Tie.TrC09.lib_allowlisted_served_uncounted
+#print axioms Agd.Tie.TrC09.lib_pass_counted_then_written
+#print axioms Agd.Tie.TrC09.lib_write_only_after_pass
+#print axioms Agd.Tie.TrC09.lib_effect_is_model
+#print axioms Agd.Tie.TrC09.mw_other_proto_passthrough
+#print axioms Agd.Tie.TrC09.mw_profile_first_global_iff
+#print axioms Agd.Tie.TrC09.prof_none_uses_global
+#print axioms Agd.Tie.TrC09.prof_drop_no_response
+#print axioms Agd.Tie.TrC09.prof_useGlobal_defers
+#print axioms Agd.Tie.TrC09.prof_pass_counts_on_profile_limiter
+#print axioms Agd.Tie.TrC09.prof_no_panic_iff
+#print axioms Agd.Tie.TrC09.prof_handoff_is_clean
+#print axioms Agd.Tie.TrC09.globalRatelimiter_always_useGlobal
+#print axioms Agd.Tie.TrC09.profile_check_tr
+#print axioms Agd.Tie.TrC09.profile_check_counts_iff
+#print axioms Agd.Tie.TrC09.profile_countResponses_weight
+#print axioms Agd.Tie.TrC09.glob_drop_no_response
+#print axioms Agd.Tie.TrC09.glob_allowlisted_served_uncounted
+#print axioms Agd.Tie.TrC09.glob_pass_counted_then_written
